@@ -40,6 +40,8 @@ InvalidChecksum: ...
 '8601.11.17947'
 >>> to_iban('8601 11 17947')
 'NO93 8601 11 17947'
+>>> to_iban('4090403')
+'NO3400004090403'
 """
 
 from stdnum import luhn
